@@ -6,13 +6,48 @@ from harness import ringbuffer as R
 ID = "C09"
 PROPS = "props/C09.v"
 
+ASSUMPTIONS = [
+    "every sample is later than datetime.min + capacity * period (newest == datetime.min is modelled as 'nothing written yet')",
+    "datetime arithmetic does not overflow (timestamps far from datetime.min / datetime.max)",
+    "to_internal_index: round(float seconds / float seconds) of a slot-aligned offset is the exact slot number (error << 0.5 for realistic epochs and periods; exercised by the correspondence with epochs around 1.7e9 s)",
+    "sorted(gaps, key=start.timestamp()): float keys of distinct microsecond timestamps are distinct and ordered (true until year ~2242)",
+    "pickle round trip (serialization.dump/load) preserves the buffer state (exercised by the correspondence, identity in the model)",
+]
+
+TRUSTED = [
+    "numpy / list container semantics (both containers are driven; the model has one list of cells)",
+    "independent oracle tools/harness/ringbuffer.py:SlidingMap (dict-based; slot rounding by round(Fraction))",
+]
+
 
 def streams():
     return [R.RingStream()]
 
 
 META = {
-    "technique": "TBD",
-    "level_text": "TBD",
-    "level_note": "TBD",
+    "technique": "Coq proof: refinement of the concrete ring buffer (cells + incrementally maintained gap list + newest) to an abstract "
+                 "sliding map (newest slot, slot -> last valid value); invariant preserved by update() for every history (induction over "
+                 "fold_left), same rejects; count_valid / oldest / newest / count_covered / window by index and by datetime / MovingWindow.at "
+                 "proved equal to the abstract observers.  Differential correspondence of the real OrderedRingBuffer (list + numpy) and "
+                 "MovingWindow against the model evaluated inside Coq after every update (all observers, raw cells, gap list, random queries) "
+                 "+ an independent dict-based oracle judging the property on the implementation's answers.",
+    "level_text": "Machine-checked theorems (16, all closed under the global context) on a Gallina model that follows buffer.py and "
+                  "MovingWindow.at/window/__getitem__ method by method (update, _update_gaps, _remove_gap, the _cleanup_gaps loop as a "
+                  "structural recursion, window, _fill_gaps, _wrapped_buffer_window, count_valid, count_covered, oldest/newest_timestamp, "
+                  "get_timestamp, to_internal_index, normalize_timestamp over integer microseconds).  Proved for every capacity >= 1, every "
+                  "initial container content, every update history and every query: the gap list is sorted/disjoint/non-adjacent/inside the "
+                  "window and marks exactly the slots without valid value; updates are rejected iff older than the window; counts and "
+                  "oldest/newest agree with the map; every window()/at() answer is, slot by slot, the stored valid value or the fill, only "
+                  "for slots inside both the query and [oldest valid, newest], never more slots than the (rounded) query spans, and every "
+                  "value was written to that slot by the history; normalize_timestamp is the nearest slot with ties to even (even periods). "
+                  "The model is tied to the code by correspondence only (no T-tie item: normalize_timestamp/wrap/Gap.contains use "
+                  "divmod / self attributes outside the translator's subset).",
+    "level_note": "Model follows the code AFTER three fix: commits in /repo (5c62ba0 window() normalises datetimes — F11/F12; b0ce417 "
+                  "MovingWindow.at gap slots / index range — F13; c194ad4 count_covered exact division — new finding).  Not proved, only "
+                  "exercised by correspondence: float rounding inside to_internal_index and the sort key, numpy vs list storage, pickle "
+                  "round trip, datetime.min sentinel arithmetic.  fill_value=None (raw data, documented opt-out) is modelled and compared "
+                  "but the theorems and the oracle constrain only the valid slots in that mode.  At capacity 1 the far-jump branch leaves "
+                  "one EMPTY range Gap(t, t) in `gaps` until the next update; it denotes no slot (invariant gaps_ok allows exactly this).  "
+                  "MovingWindow is driven through buffer.update() (what _run_impl does per sample), not through a channel/event loop; "
+                  "a too-old sample raising IndexError inside _run_impl (which ends the task) is outside this property.",
 }
